@@ -840,7 +840,7 @@ def run_conc(prop, tier, seed, jobs, write_evidence, write_replay, load_known):
         return 1
     rng = random.Random(seed * 7919 + int(prop[1:]))
     thorough = tier == "thorough"
-    scen = cfg["scen"](rng, 60 if thorough else 12)
+    scen = cfg["scen"](rng, 150 if thorough else 12)
     info = {}
     if cfg.get("info"):
         info = {x[0].split()[1]: x[1] for x in scen}
@@ -861,14 +861,14 @@ def run_conc(prop, tier, seed, jobs, write_evidence, write_replay, load_known):
                     pending = None
                     extra.append(ln)
         scen = extra + scen
-    iters = (5000 if thorough else 300) if cfg.get("model") else (1500 if thorough else 120)
+    iters = (20000 if thorough else 300) if cfg.get("model") else (6000 if thorough else 120)
     lines = run_scenarios(scen, seed, iters, "mixed", jobs)
     extra_groups = []
     for g in cfg.get("more", []):
-        gs = g["scen"](rng, 60 if thorough else 12)
+        gs = g["scen"](rng, 150 if thorough else 12)
         ginfo = {x[0].split()[1]: x[1] for x in gs} if g.get("info") else {}
         gs = [x[0] for x in gs] if g.get("info") else gs
-        gq, gt = g.get("iters", (120, 1500))
+        gq, gt = g.get("iters", (120, 6000))
         glines = run_scenarios(gs, seed, gt if thorough else gq, "mixed", jobs)
         extra_groups.append((g, gs, ginfo, glines))
         lines = lines + glines
